@@ -1378,7 +1378,90 @@ def contract_fm_misc(case):
 
 # =============================================================================================== table
 _IM = "cogent3.core.location.IndelMap."
+# ================================================================================================ long maps (dtype boundaries)
+LONG_LAYOUTS = [
+    [["x", 40000], ["-", 5], ["x", 30000], ["-", 7], ["x", 3]],
+    [["-", 3], ["x", 32766], ["-", 2], ["x", 2], ["-", 40000], ["x", 32770], ["-", 4]],
+    [["x", 65534], ["-", 3], ["x", 1], ["-", 65540], ["x", 5]],
+    [["x", 2], ["-", 70000], ["x", 70000], ["-", 1], ["x", 1]],
+]
+
+
+def gen_long(tier, seed):
+    for k, _ in enumerate(LONG_LAYOUTS):
+        for how in ("direct", "parse"):
+            yield [k, how]
+
+
+def contract_long(case):
+    """gap bookkeeping far beyond 2**15 / 2**16 positions: coordinates, lengths, index conversions at the run boundaries,
+    one slice and the reversal, against run-length arithmetic"""
+    k, how = case
+    runs_ = LONG_LAYOUTS[k]
+    col = 0
+    seqpos = 0
+    gaps_seq, gaps_aln, probes = [], [], []
+    for ch, n in runs_:
+        if ch == "-":
+            gaps_seq.append([seqpos, n])
+            gaps_aln.append([col, col + n])
+            probes += [(col, None), (col + n - 1, None)]
+        else:
+            probes += [(col, seqpos), (col + n - 1, seqpos + n - 1)]
+            seqpos += n
+        col += n
+    L, P = col, seqpos
+    site = f"long/{how}"
+    try:
+        if how == "parse":
+            from cogent3 import make_seq
+            m = make_seq("".join(("A" if ch == "x" else "-") * n for ch, n in runs_), moltype="dna").parse_out_gaps()[0]
+        else:
+            from cogent3.core.location import IndelMap
+            m = IndelMap(gap_pos=numpy.array([g[0] for g in gaps_seq], dtype=int),
+                         cum_gap_lengths=numpy.array([g[1] for g in gaps_seq], dtype=int).cumsum(), parent_length=P)
+        if len(m) != L or int(m.parent_length) != P:
+            return ("fail", f"{site}/len", f"{case}: len {len(m)} parent_length {m.parent_length}; the string has {L} columns, {P} residues")
+        gc = [[int(a), int(b)] for a, b in m.get_gap_coordinates()]
+        if gc != gaps_seq:
+            return ("fail", f"{site}/gap_coordinates", f"{case}: {gc}, the string has {gaps_seq}")
+        ga = [[int(a), int(b)] for a, b in m.get_gap_align_coordinates()]
+        if ga != gaps_aln:
+            return ("fail", f"{site}/gap_align_coordinates", f"{case}: {ga}, the string has {gaps_aln}")
+        for c, sp in probes:
+            if sp is not None:
+                if int(m.get_seq_index(c)) != sp:
+                    return ("fail", f"{site}/seq_index", f"{case}: column {c} holds residue {sp}, get_seq_index gives {m.get_seq_index(c)}")
+                if int(m.get_align_index(sp)) != c:
+                    return ("fail", f"{site}/align_index", f"{case}: residue {sp} is in column {c}, get_align_index gives {m.get_align_index(sp)}")
+        # a slice across the last run boundaries
+        a, b = max(0, L - 70010), L - 1
+        sl = m[a:b]
+        want = [[max(x, a) - a, min(y, b) - a] for x, y in gaps_aln if min(y, b) > max(x, a)]
+        got = [[int(x), int(y)] for x, y in sl.get_gap_align_coordinates()]
+        if len(sl) != b - a or got != want:
+            return ("fail", f"{site}/slice", f"{case}: m[{a}:{b}] has len {len(sl)} gaps {got}; the string slice has len {b - a} gaps {want}")
+        rv = m.nucleic_reversed()
+        want = sorted([[L - y, L - x] for x, y in gaps_aln])
+        got = [[int(x), int(y)] for x, y in rv.get_gap_align_coordinates()]
+        if len(rv) != L or got != want:
+            return ("fail", f"{site}/nucleic_reversed", f"{case}: gaps {got}; the reversed string has {want}")
+    except Exception as e:
+        return ("fail", f"{site}/raises-{type(e).__name__}", f"{case}: {type(e).__name__}: {str(e)[:200]}")
+    return ("ok", True)
+
+
 BOUNDED = {
+    "long_maps": {
+        "gen": gen_long, "contract": contract_long,
+        "functions": ["IndelMap.__post_init__ / from gapped string (parse_out_gaps)", "get_gap_coordinates", "get_gap_align_coordinates",
+                      "get_seq_index", "get_align_index", "__getitem__(slice)", "nucleic_reversed"],
+        "bound": "4 layouts of 65 000 - 140 000 columns with gap runs and residues on both sides of 2**15 and 2**16, built from the "
+                 "gapped string and from coordinate arrays",
+        "rule": "lengths, gap coordinates (sequence and alignment), index conversions at every run boundary, one long slice and the "
+                "reversal agree with run-length arithmetic on the string",
+        "shards": 4,
+    },
     "observe": {
         "gen": gen_observe, "contract": contract_observe,
         "functions": ["cogent3.core.sequence.Sequence.parse_out_gaps", _IM + "__len__", _IM + "spans",
